@@ -1,5 +1,6 @@
 import DirectVerif.Driver.Common
 import DirectVerif.Model.Train
+import DirectVerif.Model.C16Events
 /-!
 Line-protocol driver for C16 (and the toy glue shared with C15): runs `Train.runRangeT` on the exact
 toy instance (linear model, L1 sum loss, SGD with momentum, WarmupMultiStepLR).
@@ -7,6 +8,11 @@ toy instance (linear model, L1 sum loss, SGD with momentum, WarmupMultiStepLR).
   loop  d bs k T pinned | mu_n mu_d | method warmupIters base_n base_d gamma_n gamma_d wf_n wf_d
         | milestones… | X (N·d ints) | y (N ints) | w0 (d ints)
   → ok  (θ₀_n θ₀_d … lr_n lr_d) per iteration        (parameters and logged lr after every iteration)
+
+  hist  d bs k T 0 aux | mu | sched | ms | X | y | w0 | ckSteps valSteps hasVal
+        | (total kill(-1 = none) where swv resume) per process | (site touch needsVal) per row of the between-table
+  → ok  per process: start n latest(-1 = none) last_epoch | then per completed iteration:
+        it θ… lr-in-effect lr-after-scheduler-step            (`C16E.history` on the toy instance)
 -/
 namespace DirectVerif.Driver.C16
 open DirectVerif DirectVerif.Driver DirectVerif.Train
@@ -82,8 +88,55 @@ def opLoop (c : ToyCfg) (pinned aux : Bool) (oom : List Int) : String :=
     let recs := (List.range c.total).zip states |>.filter (fun (n, _) => !isOom n) |>.map (·.2)
     okG (recs.map fun s => vecG s.theta ++ ratG (c.lrAt s.epoch))
 
+/-! ### histories of processes with everything that happens between iterations (`Model/C16Events.lean`) -/
+
+def parseSite : Int → Option C16E.Site
+  | 0 => some .prologue | 1 => some .logFirst | 2 => some .validationLoop | 3 => some .checkpoint
+  | 4 => some .writeLogs | 5 => some .killSave | _ => none
+
+def parseTouch : Int → Option C16E.Touch
+  | 0 => some .zeroGrad | 1 => some .optStep | 2 => some .schedStep | 3 => some .scalerUpdate | 4 => some .backward
+  | 5 => some .gradWrite | 6 => some .lrWrite | 7 => some .loadState | 8 => some .doIterUnguarded | _ => none
+
+def parseTable : List Int → Option C16E.Table
+  | [] => some []
+  | s :: t :: n :: rest => do
+    let site ← parseSite s
+    let touch ← parseTouch t
+    let tl ← parseTable rest
+    some ({ site, touch, needsVal := n != 0 } :: tl)
+  | _ => none
+
+def parseProcs : List Int → Option (List C16E.Proc)
+  | [] => some []
+  | total :: kill :: _where :: swv :: res :: rest => do
+    let tl ← parseProcs rest
+    some ({ total := total.toNat, kill := if kill < 0 then none else some kill.toNat, swv := swv != 0,
+            resume := res != 0 } :: tl)
+  | _ => none
+
+def opHist (c : ToyCfg) (aux : Bool) (ev : List Int) (procs : List C16E.Proc) (tbl : C16E.Table) : String :=
+  match c.reject, ev with
+  | some e, _ => "err " ++ e
+  | none, [ck, vs, hv] =>
+    let cfg : Cfg := { k := c.k }
+    let e : C16E.EvCfg := { ckSteps := ck.toNat, valSteps := vs.toNat, hasVal := hv != 0 }
+    let ops := if aux then Toy.opsAux c.d c.mu else Toy.ops c.d c.mu
+    let init : St Toy.Vec (Option Toy.Vec) Toy.Vec Nat :=
+      if aux then ⟨c.w0 ++ List.replicate c.d 0, none, List.replicate (2 * c.d) 0, 0, 0⟩ else c.init
+    let out := C16E.history tbl C16E.resumeStart ops c.lrAt cfg e c.batch init none procs
+    okG (out.flatMap fun ps =>
+      [(ps.start : Int), (ps.recs.length : Int), (match ps.latest with | some (l, _) => (l : Int) | none => -1),
+        (ps.s.epoch : Int)] ::
+      ps.recs.map fun r => (r.it : Int) :: (vecG r.theta ++ ratG (c.lrAt r.epochBefore) ++ ratG (c.lrAt r.epochAfter)))
+  | none, _ => "err BadOp"
+
 def step (op : String) (gs : List (List Int)) : String :=
   match op, gs with
+  | "hist", [hdr, mu, sched, ms, xs, ys, w0, ev, procs, tbl] =>
+    match parseToy hdr mu sched ms xs ys w0, parseProcs procs, parseTable tbl with
+    | some c, some ps, some t => opHist c (hdr.getD 5 0 == 1) ev ps t
+    | _, _, _ => "err BadOp"
   | "loop", [hdr, mu, sched, ms, xs, ys, w0] =>
     match parseToy hdr mu sched ms xs ys w0 with
     | some c => opLoop c (hdr.getD 4 0 == 1) (hdr.getD 5 0 == 1) []
